@@ -195,7 +195,9 @@ def host_reference(built, inputs):
     from psyclone.psyir.nodes import Routine
     store = interp.make_store(inputs)
     routine = built["orig"].walk(Routine)[0]
-    interp.run_serial(routine.children, store)
+    ctx = interp.Ctx()
+    ctx.routines = {r.name.lower(): r for r in built["orig"].walk(Routine)}
+    interp.run_serial(routine.children, store, ctx)
     return store
 
 
@@ -211,6 +213,8 @@ def device_run(built, inputs):
     sim = accsim.AccSim(built["clauses"])
     ctx = interp.Ctx()
     ctx.ext = sim.ext
+    ctx.routines = {r.name.lower(): r
+                    for r in built["lowered"].walk(Routine)}
     env = interp.Env(store)
     fault = None
     try:
@@ -244,13 +248,14 @@ def judge(built, inputs, ref):
             vios.append({"class": "undefined-device-value-used-in-control",
                          "observed": {"fault": fault,
                                       "array": sim.undefined_reads[0][0],
-                                      "undefined_reads":
-                                      sim.undefined_reads[:3]}})
+                                      "undefined_reads": [
+                                          list(u[:3]) for u in
+                                          sim.undefined_reads[:3]]}})
         elif fault[0] in ("poison-in-control", "poison-subscript") and \
                 sim.copied_back:
             # an undefined value that an earlier region copied back to the
             # host reached a control decision later on
-            name, offs, mode = sim.copied_back[0]
+            name, offs, mode, _ = sim.copied_back[0]
             vios.append({"class":
                          "undefined-device-values-copied-back-to-host",
                          "observed": {"array": name, "offsets": offs,
@@ -260,18 +265,23 @@ def judge(built, inputs, ref):
             vios.append({"class": "device-run-only-fault:" + fault[0],
                          "observed": {"fault": fault}})
         return vios, info
+    anomalies = []
     if sim.undefined_reads:
-        name, off, written = sim.undefined_reads[0]
-        vios.append({"class": "device-read-of-undefined-element",
-                     "observed": {"array": name, "offset": off,
-                                  "element_written_on_device_before":
-                                  written,
-                                  "count": len(sim.undefined_reads)}})
+        name, off, written, when = sim.undefined_reads[0]
+        anomalies.append((when, {
+            "class": "device-read-of-undefined-element",
+            "observed": {"array": name, "offset": off,
+                         "element_written_on_device_before": written,
+                         "count": len(sim.undefined_reads)}}))
     if sim.copied_back:
-        name, offs, mode = sim.copied_back[0]
-        vios.append({"class": "undefined-device-values-copied-back-to-host",
-                     "observed": {"array": name, "offsets": offs,
-                                  "clause": mode}})
+        name, offs, mode, when = sim.copied_back[0]
+        anomalies.append((when, {
+            "class": "undefined-device-values-copied-back-to-host",
+            "observed": {"array": name, "offsets": offs, "clause": mode}}))
+    # the earliest anomaly is the root cause; later ones are consequences
+    # (an undefined value copied back by one region is read by the next)
+    for _, vio in sorted(anomalies, key=lambda a: a[0])[:1]:
+        vios.append(vio)
     diffs = []
     for name in sorted(ref):
         a, b = ref[name], store[name]
@@ -297,12 +307,13 @@ def features(prog, recipe, built, vio):
         name = vio["observed"]["undefined_reads"][0][0]
     feats = {"array": name, "update_in_history": bool(recipe["update"]),
              "order": recipe["order"], "clause_of_array": None,
-             "first_textual_access_in_region": None}
+             "first_textual_access_in_region": None,
+             "passed_to_call_in_region": False}
     if built is None or name is None:
         return feats
     name = name.strip("'\"")
     feats["array"] = name
-    from psyclone.psyir.nodes import ACCDataDirective
+    from psyclone.psyir.nodes import ACCDataDirective, Call
     for node in built["lowered"].walk(ACCDataDirective):
         cl = built["clauses"][id(node)]
         for mode in ("copyin", "copyout", "copy"):
@@ -310,6 +321,12 @@ def features(prog, recipe, built, vio):
                 feats["clause_of_array"] = mode
                 feats["first_textual_access_in_region"] = \
                     _first_access(node.dir_body, name)
+                feats["passed_to_call_in_region"] = any(
+                    type(arg).__name__ == "Reference" and
+                    arg.symbol.name.lower() == name
+                    for call in node.dir_body.walk(Call)
+                    if type(call).__name__ == "Call"
+                    for arg in call.arguments)
                 return feats
     return feats
 
@@ -318,6 +335,15 @@ def _first_access(node, name):
     """First access ("R"/"W") to array `name` in textual/evaluation order
     below `node`; my own walk, independent of VariablesAccessInfo."""
     tname = type(node).__name__
+    if tname == "Call":
+        for arg in node.arguments:
+            if type(arg).__name__ == "Reference" and \
+                    arg.symbol.name.lower() == name:
+                return "RW"
+            got = _first_access(arg, name)
+            if got:
+                return got
+        return None
     if tname == "Assignment":
         got = _first_access(node.rhs, name)
         if got:
